@@ -81,7 +81,10 @@ def chain(job: dict, policy: dict | None, max_deliveries: int = 14) -> tuple[lis
                 result = ("err", o["exc"], _text_of(o["exc"], o.get("text", "")))
         elif k == "timeout":
             kind, dur, result = "failure", timeout + float(o.get("cleanup") or 0.0), ("err-timeout",)
-        elif k == "eager":
+        elif k in ("eager", "depeager"):
+            # depeager: the eager response comes from a dependency of the actor (a provider that settles the message itself):
+            # the actor body is never entered
+            body = k == "eager"
             # set_result / set_exception need result storing; otherwise they raise ValueError inside the actor
             prog = o.get("program", [])
             bad_set = any(s[0] in ("result", "exception") for s in prog) and not stores
